@@ -182,4 +182,13 @@ func decodeFirstUseEntries(vers []int, levels []int) [][]string {
 	return es
 }
 
+// firstUseScores: the decode / score entries of the decoders at and above the property's level.
+func firstUseScores(r *ev.Run, ver, lv int) {
+	levels := []int{}
+	for l := lv; l < 3; l++ {
+		levels = append(levels, l)
+	}
+	firstUse(r, decodeFirstUseEntries([]int{ver}, levels))
+}
+
 var _ = reflect.TypeOf
